@@ -104,7 +104,7 @@ theorem evalSpec_congr_cone (f : Nat) (g g' : Graph V) (k : Nat)
     | struct s =>
       dsimp only
       congr 1
-      apply specPull_congr
+      apply specPullS_congr
       intro d hd
       exact ih d (fun j hj => h j (.step hs hd hj))
 
@@ -129,12 +129,12 @@ theorem Spec_static {rank : Nat → Nat} {F : Nat} {g g' : Graph V} (hwf : Ranke
     | struct t =>
       rw [hg] at h1
       obtain ⟨s, hs', hfn, hsc, har, hdeps⟩ := StaticEq.struct_left h1
-      have hrd : s.reads = t.reads := by rw [hs'] at h1; exact StaticEq.reads_eq h1
+      have hrd : s.next = t.next := by rw [hs'] at h1; exact StaticEq.reads_eq h1
       rw [hs']
       dsimp only
       rw [hfn, hsc, har, hdeps, hrd]
       congr 1
-      apply specPull_congr
+      apply specPullS_congr
       intro d hd
       exact ih (rank d) (hwf.2 i t hg d hd) d rfl
 
@@ -334,13 +334,15 @@ structure EvalOK (F : Nat) (g : Graph V) (i : Nat) (r : Graph V × Log) : Prop w
   logCone : ∀ e ∈ r.2, Reach g i e.1
   count : ∀ k, ver r.1 k = ver g k + cnt r.2 k
 
-structure PullOK (F : Nat) (g : Graph V) (reads : List (Option V) → Bool) (ds : List Nat) (acc : List (Option V))
-    (r : Graph V × List (Option V) × Log) : Prop where
+structure PullOK (F : Nat) (g : Graph V) (next : List (Option V) → Option Nat) (ds : List Nat) (m : Nat)
+    (es : List (Option V)) (r : Graph V × List (Option V) × Log) : Prop where
   inv : Inv F r.1
   evo : Evolves F g r.1
-  fresh : (reads = fun _ => true) → ReadsAll g → ∀ d ∈ ds, Outdated F r.1 d = false
+  /-- an input pulled during this `Process()` is `Processed` at the end (all-reading graphs) -/
+  fresh : ReadsAll g → ∀ (k d : Nat), ds[k]? = some d → es[k]? = some none → (∃ v, r.2.1[k]? = some (some v)) →
+    Outdated F r.1 d = false
   /-- the entries `Process()` collected are those of the from-scratch `Process()` -/
-  vals : r.2.1 = specPull (Spec F g) reads ds acc
+  vals : r.2.1 = specPullS (Spec F g) next ds m es
   frame : ∀ k, (∀ d ∈ ds, ¬ Reach g d k) → r.1 k = g k
   logOut : ∀ e ∈ r.2.2, Outdated F g e.1 = true
   logCone : ∀ e ∈ r.2.2, ∃ d ∈ ds, Reach g d e.1
@@ -351,69 +353,130 @@ variable {rank : Nat → Nat} {F : Nat}
 
 theorem pull_ok (n : Nat)
     (ih : ∀ d, rank d < n → ∀ g : Graph V, Ranked rank F g → Inv F g → EvalOK F g d (Eval F g d))
-    (reads : List (Option V) → Bool)
-    (ds : List Nat) (hds : ∀ d ∈ ds, rank d < n) (g : Graph V) (acc : List (Option V)) (hwf : Ranked rank F g)
-    (hinv : Inv F g) :
-    PullOK F g reads ds acc (pullM (Eval F) reads g ds acc) := by
-  induction ds generalizing g acc with
-  | nil =>
-    exact ⟨hinv, Evolves.refl g, by simp, rfl, fun _ _ => rfl, by simp [pullM], by simp [pullM], by simp [pullM, cnt]⟩
-  | cons d ds ihds =>
-    have hd : rank d < n := hds d (List.mem_cons_self ..)
-    simp only [pullM]
-    cases hrd : reads acc with
-    | false =>
-      -- the input is not pulled: nothing happens
-      simp only [Bool.false_eq_true, if_false]
-      have h2 := ihds (fun e he => hds e (List.mem_cons_of_mem _ he)) g (acc ++ [none]) hwf hinv
-      refine ⟨h2.inv, h2.evo, ?_, ?_, ?_, h2.logOut, ?_, h2.count⟩
-      · intro hall; rw [hall] at hrd; cases hrd
-      · rw [h2.vals]; simp [specPull, hrd]
-      · intro k hk; exact h2.frame k (fun e he => hk e (List.mem_cons_of_mem _ he))
-      · intro e he
-        obtain ⟨d', hd', hr⟩ := h2.logCone e he
-        exact ⟨d', List.mem_cons_of_mem _ hd', hr⟩
+    (next : List (Option V) → Option Nat)
+    (ds : List Nat) (hds : ∀ d ∈ ds, rank d < n) (m : Nat) (g : Graph V) (es : List (Option V))
+    (hwf : Ranked rank F g) (hinv : Inv F g) :
+    PullOK F g next ds m es (pullS (Eval F) next ds m g es) := by
+  have stop : ∀ (m' : Nat) (g : Graph V) (es : List (Option V)), Inv F g →
+      specPullS (Spec F g) next ds m' es = es → PullOK F g next ds m' es (g, es, []) := by
+    intro m' g es hinv hx
+    refine ⟨hinv, Evolves.refl g, ?_, hx.symm, fun _ _ => rfl, by simp, by simp, by simp [cnt]⟩
+    intro _ k d _ h1 h2
+    obtain ⟨v, h2⟩ := h2
+    dsimp only at h2
+    rw [h1] at h2
+    cases h2
+  induction m generalizing g es with
+  | zero => exact stop 0 g es hinv rfl
+  | succ m ihm =>
+    have stop' := stop (m+1) g es hinv
+    simp only [pullS]
+    cases hnx : next es with
+    | none => exact stop' (by simp [specPullS, hnx])
+    | some k =>
+      dsimp only
+      cases hdk : ds[k]? with
+      | none => exact stop' (by simp [specPullS, hnx, hdk])
+      | some d =>
+        dsimp only
+        have hdm : d ∈ ds := List.mem_of_getElem? hdk
+        have hd : rank d < n := hds d hdm
+        have h1 := ih d hd g hwf hinv
+        have hwf1 : Ranked rank F (Eval F g d).1 := hwf.of_static h1.evo.static
+        have h2 := ihm (Eval F g d).1 (es.set k (some (val (Eval F g d).1 d))) hwf1 h1.inv
+        refine ⟨h2.inv, Evolves.trans hwf h1.evo h2.evo, ?_, ?_, ?_, ?_, ?_, ?_⟩
+        · intro hra k' d' hk' hes' hfin
+          by_cases hkk : k' = k
+          · subst hkk
+            rw [hdk] at hk'
+            cases hk'
+            exact Outdated_stable hwf1 h2.evo.keep (h1.fresh hra)
+          · refine h2.fresh (hra.of_static h1.evo.static) k' d' hk' ?_ hfin
+            rw [List.getElem?_set_ne (fun h => hkk h.symm)]
+            exact hes'
+        · dsimp only
+          rw [h2.vals, h1.value]
+          have hsp : specPullS (Spec F g) next ds (m+1) es
+              = specPullS (Spec F g) next ds m (es.set k (some (Spec F g d))) := by
+            simp [specPullS, hnx, hdk]
+          rw [hsp]
+          apply specPullS_congr
+          intro e _
+          exact Spec_static hwf h1.evo.static e
+        · intro k' hk'
+          dsimp only
+          rw [h2.frame k' (fun e he hr => hk' e he (hr.of_static h1.evo.static.symm)), h1.frame k' (hk' d hdm)]
+        · intro e he
+          dsimp only at he
+          rcases List.mem_append.1 he with he | he
+          · exact h1.logOut e he
+          · have := h2.logOut e he
+            cases ho : Outdated F g e.1 with
+            | true => rfl
+            | false => rw [Outdated_stable hwf h1.evo.keep ho] at this; exact absurd this (by simp)
+        · intro e he
+          dsimp only at he
+          rcases List.mem_append.1 he with he | he
+          · exact ⟨d, hdm, h1.logCone e he⟩
+          · obtain ⟨d', hd', hr⟩ := h2.logCone e he
+            exact ⟨d', hd', hr.of_static h1.evo.static.symm⟩
+        · intro k'
+          dsimp only
+          rw [h2.count k', h1.count k', cnt_append]
+          omega
+
+end
+
+/-! ### the all-reading strategy fills every slot -/
+
+theorem specPullS_length (ev : Nat → V) (next : List (Option V) → Option Nat) (ds : List Nat) (m : Nat)
+    (es : List (Option V)) (n : Nat) (h : es.length = n) : (specPullS ev next ds m es).length = n := by
+  induction m generalizing es with
+  | zero => exact h
+  | succ m ih =>
+    simp only [specPullS]
+    split
+    · exact h
+    · split
+      · exact h
+      · exact ih _ (by simp [h])
+
+
+theorem nextAll_fills (ev : Nat → V) (ds : List Nat) (m : Nat) (es : List (Option V))
+    (hlen : es.length = ds.length) (hm : es.countP Option.isNone ≤ m) :
+    ∀ x ∈ specPullS ev nextAll ds m es, x.isNone = false := by
+  induction m generalizing es with
+  | zero =>
+    simp only [specPullS]
+    intro x hx
+    cases hxn : x.isNone with
+    | false => rfl
     | true =>
-      simp only [if_true]
-      have h1 := ih d hd g hwf hinv
-      have hwf1 : Ranked rank F (Eval F g d).1 := hwf.of_static h1.evo.static
-      have h2 := ihds (fun e he => hds e (List.mem_cons_of_mem _ he)) (Eval F g d).1
-        (acc ++ [some (val (Eval F g d).1 d)]) hwf1 h1.inv
-      refine ⟨h2.inv, Evolves.trans hwf h1.evo h2.evo, ?_, ?_, ?_, ?_, ?_, ?_⟩
-      · intro hall hra e he
-        rcases List.mem_cons.1 he with rfl | he
-        · exact Outdated_stable hwf1 h2.evo.keep (h1.fresh hra)
-        · exact h2.fresh hall (hra.of_static h1.evo.static) e he
-      · dsimp only
-        rw [h2.vals, h1.value]
-        have hsp : specPull (Spec F g) reads (d :: ds) acc
-            = specPull (Spec F g) reads ds (acc ++ [some (Spec F g d)]) := by simp [specPull, hrd]
-        rw [hsp]
-        apply specPull_congr
-        intro e _
-        exact Spec_static hwf h1.evo.static e
-      · intro k hk
-        dsimp only
-        rw [h2.frame k (fun e he hr => hk e (List.mem_cons_of_mem _ he) (hr.of_static h1.evo.static.symm)),
-          h1.frame k (hk d (List.mem_cons_self ..))]
-      · intro e he
-        dsimp only at he
-        rcases List.mem_append.1 he with he | he
-        · exact h1.logOut e he
-        · have := h2.logOut e he
-          cases ho : Outdated F g e.1 with
-          | true => rfl
-          | false => rw [Outdated_stable hwf h1.evo.keep ho] at this; exact absurd this (by simp)
-      · intro e he
-        dsimp only at he
-        rcases List.mem_append.1 he with he | he
-        · exact ⟨d, List.mem_cons_self .., h1.logCone e he⟩
-        · obtain ⟨d', hd', hr⟩ := h2.logCone e he
-          exact ⟨d', List.mem_cons_of_mem _ hd', hr.of_static h1.evo.static.symm⟩
-      · intro k
-        dsimp only
-        rw [h2.count k, h1.count k, cnt_append]
+      have := List.countP_pos_iff.2 ⟨x, hx, hxn⟩
+      omega
+  | succ m ih =>
+    simp only [specPullS]
+    cases hnx : nextAll es with
+    | none =>
+      dsimp only
+      exact List.findIdx?_eq_none_iff.1 hnx
+    | some k =>
+      dsimp only
+      obtain ⟨hk, hpk, -⟩ := List.findIdx?_eq_some_iff_getElem.1 hnx
+      have hkd : k < ds.length := hlen ▸ hk
+      rw [List.getElem?_eq_getElem hkd]
+      dsimp only
+      apply ih
+      · simp [hlen]
+      · have hc : (es.set k (some (ev ds[k]))).countP Option.isNone + 1 = es.countP Option.isNone := by
+          rw [List.countP_set hk]
+          simp [hpk]
+          have := List.countP_pos_iff.2 ⟨es[k], List.getElem_mem hk, hpk⟩
+          omega
         omega
+
+section
+variable {rank : Nat → Nat} {F : Nat}
 
 theorem Eval_ok_aux (n : Nat) : ∀ i, rank i = n → ∀ g : Graph V, Ranked rank F g → Inv F g →
     EvalOK F g i (Eval F g i) := by
@@ -432,9 +495,10 @@ theorem Eval_ok_aux (n : Nat) : ∀ i, rank i = n → ∀ g : Graph V, Ranked ra
       | false => simpa using trivialCase ho
       | true =>
         simp only [if_true]
-        have hp := pull_ok (rank i) (fun d hd g' hw' hi' => ih (rank d) hd d rfl g' hw' hi') s.reads s.deps
-          (hwf.2 i s hs) g [] hwf hinv
-        generalize hr : pullM (Eval F) s.reads g s.deps [] = r at hp
+        have hp := pull_ok (rank i) (fun d hd g' hw' hi' => ih (rank d) hd d rfl g' hw' hi')
+          (s.next s.scalars s.arrays) s.deps (hwf.2 i s hs) s.deps.length g (List.replicate s.deps.length none) hwf hinv
+        generalize hr : pullS (Eval F) (s.next s.scalars s.arrays) s.deps s.deps.length g
+          (List.replicate s.deps.length none) = r at hp
         have hwf1 : Ranked rank F r.1 := hwf.of_static hp.evo.static
         -- the state after the dependencies have been pulled
         have hg1i : r.1 i = .struct s := by
@@ -463,7 +527,27 @@ theorem Eval_ok_aux (n : Nat) : ∀ i, rank i = n → ∀ g : Graph V, Ranked ra
           simp only [SNode.executed, Bool.false_or]
           change mismatch _ _ s.deps _ = false
           rw [mismatch_congr _ r.1 _ (Outdated F r.1) s.deps _ ?_]
-          · exact mismatch_map_ver r.1 _ s.deps (hp.fresh (hra i s hs) hra)
+          · refine mismatch_map_ver r.1 _ s.deps ?_
+            intro d hd
+            obtain ⟨k, hk⟩ := List.mem_iff_getElem?.1 hd
+            have hklt : k < s.deps.length := by
+              rcases Nat.lt_or_ge k s.deps.length with h | h
+              · exact h
+              · rw [List.getElem?_eq_none h] at hk; cases hk
+            refine hp.fresh hra k d hk (by simp [hklt]) ?_
+            -- the all-reading strategy filled slot k
+            have hall := nextAll_fills (Spec F g) s.deps s.deps.length (List.replicate s.deps.length none)
+              (by simp) (by simp [List.countP_replicate])
+            rw [hp.vals, hra i s hs]
+            have hlen : (specPullS (Spec F g) nextAll s.deps s.deps.length (List.replicate s.deps.length none)).length
+                = s.deps.length := specPullS_length _ _ _ _ _ _ (by simp)
+            have hk2 : k < (specPullS (Spec F g) nextAll s.deps s.deps.length
+                (List.replicate s.deps.length none)).length := by rw [hlen]; exact hklt
+            rw [List.getElem?_eq_getElem hk2]
+            have := hall _ (List.getElem_mem hk2)
+            cases hx : (specPullS (Spec F g) nextAll s.deps s.deps.length (List.replicate s.deps.length none))[k] with
+            | none => rw [hx] at this; cases this
+            | some v => exact ⟨v, rfl⟩
           · intro d hd
             refine ⟨hverd d hd, ?_⟩
             apply Outdated_congr_cone
